@@ -238,6 +238,24 @@ def run(ctx):
                         ctx.violation(f"trigger raised {type(ex).__name__} on a loaded rule", {"rule": text, "degree": d}, "no error", repr(ex)[:200])
                         continue
                     got = {ov.name: sorted((a.term.name, tuple(np.asarray(a.degree, dtype=float).ravel().tolist())) for a in ov.fuzzy.terms) for ov in target.output_variables}
+                    if di == 0:
+                        # the same rule triggered again, now under another implication operator (the block was reconfigured) and
+                        # without clearing the fuzzy outputs: new activations, carrying the new operator, are added to the old ones
+                        other = getattr(fl, rnd.choice([n for n in N.TNORMS if n != type(implication).__name__]))()
+                        before_ids = {id(a) for ov in target.output_variables for a in ov.fuzzy.terms}
+                        try:
+                            rule.trigger(other)
+                        except Exception:
+                            pass
+                        ctx.hit("event:triggered again under another implication operator")
+                        for ov in target.output_variables:
+                            seen = set()
+                            for a in ov.fuzzy.terms:
+                                if id(a) in seen:
+                                    ctx.violation("the same activated-term object is added twice to a fuzzy output", {"rule": text, "variable": ov.name}, "distinct objects", a.term.name)
+                                    break
+                                seen.add(id(a))
+                        del before_ids
                     key = di
                     if key in results and results[key] != got:
                         ctx.violation("reordering the conclusions of a rule changes what they contribute", {"rule": text, "degree": d, "order": list(perm)}, results[key], got)
@@ -267,7 +285,7 @@ def run(ctx):
                 ctx.sample("consequent", {"rule": text, "rule_enabled": enabled, "degrees": degs, "contributions": results.get(0)})
         probe.report(ctx)
         reach.report(ctx)
-    ctx.require("hook:Rule.trigger", "hook:Consequent.modify", "hook:Activated.degree.setter", "compare:appended terms", "law:permutation", "piece:disabled rule", "piece:conclusion on a disabled variable", "piece:hedged conclusion", "piece:hedge on an earlier conclusion of several", "piece:rule whose load was rejected", "degree:batch", "degree:grid", "route:rule of a duplicated engine (copy)", "route:rule of a duplicated engine (deepcopy)", "degree:nan", "degree:inf", "degree:zero", "degree:partial")
+    ctx.require("hook:Rule.trigger", "hook:Consequent.modify", "hook:Activated.degree.setter", "compare:appended terms", "law:permutation", "piece:disabled rule", "piece:conclusion on a disabled variable", "piece:hedged conclusion", "piece:hedge on an earlier conclusion of several", "piece:rule whose load was rejected", "event:triggered again under another implication operator", "degree:batch", "degree:grid", "route:rule of a duplicated engine (copy)", "route:rule of a duplicated engine (deepcopy)", "degree:nan", "degree:inf", "degree:zero", "degree:partial")
 
 
 def passive(ctx, fl, probe):
